@@ -47,11 +47,13 @@ def to_json(e, X=None):
     return {"k": "other", "w": -1, "n": type(e).__name__}
 
 
-def from_json_shared(t):
+def from_json_shared(t, memo=None):
     """like from_json, but structurally identical sub-trees of t become ONE Python object (a DAG, as code that
-    reuses sub-expression objects produces); still no sharing with module-level singletons"""
+    reuses sub-expression objects produces); still no sharing with module-level singletons.  Passing the same memo
+    for several trees makes them share their common sub-objects."""
     import json as _j
-    memo = {}
+    if memo is None:
+        memo = {}
 
     def build(x):
         key = _j.dumps(x, sort_keys=True)
